@@ -297,6 +297,26 @@ class Check(FormulaCheck):
                 self.expect(key + ':return-value-is-not-the-call-value', okv, formula=f2, returned=ret, record=r)
             elif calls and nsites == 2:
                 self.expect(key + ':return-value-is-not-the-call-value', r['error'] is None and r['result'] == 2 * ret, formula=f2, returned=ret, record=r)
+            # call sites with MANY arguments (a call site is a call site however long it is - the limits other spreadsheets document
+            # are not this library's): called once with all of them, in order; and an unknown name stays #NAME? however it is called
+            if j % 30 == 0:
+                for n in (rnd.choice([5, 30, 100]), rnd.choice([253, 254, 255]), rnd.choice([256, 257]), rnd.choice([300, 700])):
+                    sep = rnd.choice([',', ';', '\\'])
+                    del log[:]
+                    fl = '%s(%s)' % (nm, sep.join(str(i) for i in range(1, n + 1)))
+                    r = self.parse(fl)
+                    calls = [c for c in log if c[0] == nm]
+                    self.expect(key + ':not-called-once-per-call-site:long-argument-list', len(calls) == 1 and calls[0][1] == tuple(range(1, n + 1)), formula=fl[:60] + '...', arguments=n,
+                                calls=len(calls), received=len(calls[0][1]) if calls else None, record=r)
+                    okv = bool(calls) and (r['error'] == str(ret) if isinstance(ret, hx.errors().XLError) else (r['error'] is None and (r['result'] is ret or canon(r['result']) == canon(ret))))
+                    self.expect(key + ':return-value-is-not-the-call-value:long-argument-list', okv or not calls, formula=fl[:60] + '...', arguments=n, returned=ret, record=r)
+                    for fu in ('nosuch_fn(%s)', '1+nosuch_fn(%s)', 'nosuch_fn(%s)+1', 'IF(nosuch_fn(%s),1,2)'):
+                        ru = self.parse(fu % sep.join(str(i) for i in range(1, n + 1)))
+                        self.expect('C09/unknown-function-is-not-#NAME?:long-argument-list', ru == {'result': None, 'error': '#NAME?'}, formula=(fu % '1..n'), arguments=n, record=ru)
+                    rs = self.parse('COUNT(%s)' % sep.join(str(i) for i in range(1, n + 1))) if 'COUNT' not in [x for x, _ in names] else None
+                    if rs is not None:
+                        self.expect('C09/documented-name-does-not-resolve-to-built-in:long-argument-list', rs == {'result': n, 'error': None}, formula='COUNT(1..n)', arguments=n, record=rs)
+                    rec.nt((nm, n, sep))
             # the same names on ANOTHER parser of this process: custom ones are unknown there, shadowed built-ins are the built-ins
             import hotxlfp
             other = hotxlfp.Parser()
